@@ -611,9 +611,12 @@ def genattr(pm: ProgramModel, ctx: Ctx, mb: ModelBuilder) -> None:
         fm = rich_model(mb) if shape == "rich" else mb.model(mb.feature("Solo"), [])
         feats = _features(fm)
         have = feats[3] if shape == "rich" else None
+        have2 = feats[5] if shape == "rich" else None       # has the attribute too, but without a value (UVL `B {rnd}`)
         if have is not None:
             pre = mb.attribute("rnd", "keep", have)
             have._f["attributes"].append(pre)
+            have2._f["attributes"].append(mb.attribute("rnd", None, have2))
+            have2._f["attributes"].append(mb.attribute("other", None, have2))
         before_attrs = {id(f): list(f._f["attributes"]) for f in feats}
         dom = AObj("Domain", range_list=[], element_list=["e1", "e2"])
         # everything except the attribute lists is frozen
@@ -633,9 +636,9 @@ def genattr(pm: ProgramModel, ctx: Ctx, mb: ModelBuilder) -> None:
                 targeted = (not only_leaf) or not f._f["relations"]
                 old = before_attrs[id(f)]
                 new = list(f._f["attributes"])
-                if f is have or not targeted:
+                if f is have or f is have2 or not targeted:
                     if len(new) != len(old) or any(a is not b for a, b in zip(new, old)):
-                        bad.append(f"feature {f._f['name']} ({'already has it' if f is have else 'not targeted'}) "
+                        bad.append(f"feature {f._f['name']} ({'already has it' if f is have or f is have2 else 'not targeted'}) "
                                    f"was modified")
                     continue
                 added = new[len(old):]
